@@ -15,9 +15,13 @@ use super::spec::*;
 use crate::arithmetic::fast_two_sum;
 use crate::TwoFloat;
 
-/// the fused multiply-add the algorithms are stated over (IEEE, single rounding)
+/// the fused multiply-add the algorithms are stated over (IEEE, single rounding).  The miters
+/// below do NOT stub the crate's private `fma`: both sides call the same primitive
+/// (`f64::mul_add`; in the no-std build `libm::fma` is replaced by it, its assumed contract), so
+/// an edit of either cfg-selected `fma` definition makes the sides differ whatever the model of
+/// the primitive is.
 #[inline]
-pub fn fma_ieee(x: f64, y: f64, z: f64) -> f64 { fma_fixed(x, y, z) }
+pub fn fma_ieee(x: f64, y: f64, z: f64) -> f64 { f64::mul_add(x, y, z) }
 
 pub fn alg9(xh: f64, xl: f64, y: f64) -> TwoFloat {
     let c = TwoFloat::new_mul(xh, y);
@@ -129,15 +133,15 @@ fn div_f64_case(form: F) {
 }
 
 harnesses! {
-    #[kani::solver(cvc5)] #[kani::stub(crate::arithmetic::fma, fma_fixed)] fn alg9_mul_tf_f64() { mul_f64_case(false, F::Op) }
-    #[kani::solver(cvc5)] #[kani::stub(crate::arithmetic::fma, fma_fixed)] fn alg9_mul_f64_tf() { mul_f64_case(true, F::Op) }
-    #[kani::solver(cvc5)] #[kani::stub(crate::arithmetic::fma, fma_fixed)] fn alg9_mul_assign_f64() { mul_f64_case(false, F::Assign) }
-    #[kani::solver(cvc5)] #[kani::stub(crate::arithmetic::fma, fma_fixed)] fn alg12_mul_tf_tf() { mul_tf_case(F::Op) }
-    #[kani::solver(cvc5)] #[kani::stub(crate::arithmetic::fma, fma_fixed)] fn alg12_mul_assign_tf() { mul_tf_case(F::Assign) }
-    #[kani::solver(cvc5)] #[kani::stub(crate::arithmetic::fma, fma_fixed)] fn alg15_div_tf_f64() { div_f64_case(F::Op) }
-    #[kani::solver(cvc5)] #[kani::stub(crate::arithmetic::fma, fma_fixed)] fn alg15_div_assign_f64() { div_f64_case(F::Assign) }
+    #[kani::solver(cvc5)] fn alg9_mul_tf_f64() { mul_f64_case(false, F::Op) }
+    #[kani::solver(cvc5)] fn alg9_mul_f64_tf() { mul_f64_case(true, F::Op) }
+    #[kani::solver(cvc5)] fn alg9_mul_assign_f64() { mul_f64_case(false, F::Assign) }
+    #[kani::solver(cvc5)] fn alg12_mul_tf_tf() { mul_tf_case(F::Op) }
+    #[kani::solver(cvc5)] fn alg12_mul_assign_tf() { mul_tf_case(F::Assign) }
+    #[kani::solver(cvc5)] fn alg15_div_tf_f64() { div_f64_case(F::Op) }
+    #[kani::solver(cvc5)] fn alg15_div_assign_f64() { div_f64_case(F::Assign) }
     /// new_div(a, b) is Algorithm 15 with a zero low word
-    #[kani::solver(cvc5)] #[kani::stub(crate::arithmetic::fma, fma_fixed)]
+    #[kani::solver(cvc5)]
     fn alg15_new_div() {
         let a = any_f64!(); let b = any_f64!();
         let r = TwoFloat::new_div(a, b);
